@@ -4,10 +4,13 @@
    NoOrphan / NoLeak / CancelAnswer / NeverDead in every phase with an asynchronous wire; the design of
    the pinned tree (drop / silent / die) must violate ExactlyOne (the model can fail).
 2. SR: TLC enumerates every behaviour of <= MaxMsgs client messages against a ready server (synchronous
-   delivery, every interleaving of task completion); each behaviour is concretised for the registered
-   request methods and replayed through the REAL dispatch functions under the deterministic scheduler
-   (task held at its first lock request = "running"; injected panic at that point = "handler panics");
-   responses are compared with the behaviour's.
+   delivery, every interleaving of the task steps TaskRespond / TaskPanic / TaskRemove with the main loop);
+   each behaviour is concretised for the registered request methods and replayed through the REAL dispatch
+   functions under the deterministic scheduler (task held at its first lock request = "running"; injected
+   panic at that point = "handler panics"; wrapper task held at its final `cancellations` lock request =
+   "responded", so the main loop handles the messages the behaviour places between the answer and the
+   removal of the cancellation entry, e.g. $/cancelRequest for the id just answered); responses are
+   compared with the behaviour's.
 3. TV: the recorded in/out stream of every replay, and of the real binary over stdio (initialize
    handshake, requests queued during initialization, shutdown/exit), is judged by
    spec/LsProtocolTrace.tla; the C24 predicate is evaluated by TLC at every quiescence point.
@@ -61,6 +64,15 @@ def model_check(ctx):
     if pin.violated != "ExactlyOne":
         raise vlib.ToolError("LsProtocol with drop/silent/die semantics does not violate ExactlyOne: the model has no teeth")
     ctx.note("pinned_design", "ExactlyOne violated by the drop/silent/die design after %d states (expected)" % pin.distinct)
+    # the two steps of the wrapper task (answer; lock the map and remove) are distinguished: a `cancel` that answers
+    # by itself must be caught answering an id a second time between them
+    ca = vlib.tlc("LsProtocol", "LsProtocol_cancelanswer", workers=2, timeout=600)
+    ctx.add_tlc(ca)
+    if ca.violated != "AtMostOne" or "cancel-answer-after-result" not in ca.trace_text:
+        raise vlib.ToolError("LsProtocol with an answering `cancel` does not violate AtMostOne between TaskRespond and "
+                             "TaskRemove: the model does not separate the answer from the removal of the entry")
+    ctx.note("answering_cancel_design", "AtMostOne violated by a cancel between answer and removal after %d states (expected)"
+             % ca.distinct)
 
 
 def mine_holdable(ctx):
@@ -120,11 +132,24 @@ def inprocess(ctx):
         for i, h in enumerate(hs):
             if h["a"] == "SrvRecv" and h["m"]["k"] == "req" and h["m"]["cls"] in ("ok", "panic"):
                 nxt = hs[i + 1] if i + 1 < len(hs) else {}
-                if not (nxt.get("a") in ("TaskFinish", "TaskPanic") and nxt.get("id") == h["m"]["id"]):
+                if not (nxt.get("a") in ("TaskRespond", "TaskPanic") and nxt.get("id") == h["m"]["id"]):
                     immediate = False
         return len(msgs), single, (reqs[0]["cls"] if reqs else None), immediate
 
+    def window_cancels(beh):
+        """ids cancelled between their TaskRespond/TaskPanic and their TaskRemove (read by the main loop there)"""
+        open_, hit = set(), set()
+        for h in beh["hist"]:
+            if h["a"] in ("TaskRespond", "TaskPanic"):
+                open_.add(h["id"])
+            elif h["a"] == "TaskRemove":
+                open_.discard(h["id"])
+            elif h["a"] == "SrvRecv" and h["m"]["k"] == "cancel" and h["m"]["id"] in open_:
+                hit.add(h["m"]["id"])
+        return hit
+
     long_ones = []
+    window_long = []
     for bi, beh in enumerate(behs):
         nmsgs, single, cls, immediate = shape(beh)
         if single and nmsgs <= ctx.pick(2, 3):
@@ -135,13 +160,19 @@ def inprocess(ctx):
                 add(beh, "b%d.%d" % (bi, k), k, pool0=pool)
         elif nmsgs <= 2:
             add(beh, "b%d" % bi, rnd.randrange(1000))
+        elif window_cancels(beh):
+            window_long.append((bi, beh))
         else:
             long_ones.append((bi, beh))
-    limit = ctx.pick(400, 6000)
+    # the longer behaviours are sampled; those with a cancel between answer and removal get their own quota
+    limit = ctx.pick(300, 5000)
     if len(long_ones) > limit:
         long_ones = rnd.sample(long_ones, limit)
-    ctx.note("sampled_long_behaviours", len(long_ones))
-    for bi, beh in long_ones:
+    wlimit = ctx.pick(150, 3000)
+    if len(window_long) > wlimit:
+        window_long = rnd.sample(window_long, wlimit)
+    ctx.note("sampled_long_behaviours", len(long_ones) + len(window_long))
+    for bi, beh in sorted(long_ones + window_long, key=lambda x: x[0]):
         add(beh, "b%d" % bi, rnd.randrange(1000))
     out = L.play_inprocess(ctx, runs, tag="beh")
     if len(out) != len(runs):
@@ -156,10 +187,22 @@ def inprocess(ctx):
         aid_info[key] = {a: dict(info.get(c, {}), id=c) for c, a in idmap.items()}
     verdicts = L.validate_traces(ctx, traces, tag="inproc")
     methods_seen = set()
+    window_runs, window_methods = 0, set()
     for r, run in zip(out, runs):
         key = r["run"]
         info = infos[key]
         beh = expected[key]
+        # was the interleaving "cancel of id between its answer and the removal of its entry" really driven:
+        # the wrapper task of id observed parked at cancellations.M while the cancel was delivered
+        wc = window_cancels(beh)
+        if wc:
+            parked_ok = {e["id"] for e in r["events"] if e["ev"] == "held_remove" and e["ok"]}
+            if wc <= parked_ok:
+                window_runs += 1
+                window_methods.update(info[i]["method"] for i in wc)
+            else:
+                ctx.divergence({"what": "wrapper task was not parked at the cancellation map after its answer", "run": key,
+                                "ids": sorted(wc - parked_ok)})
         # SR: responses per id as the behaviour says
         real = {}
         for e in r["events"]:
@@ -190,6 +233,11 @@ def inprocess(ctx):
             ctx.sample({"behaviour": [dict(h) for h in beh["hist"][1:]], "methods": {k: v["method"] for k, v in info.items()},
                         "responses": real})
     ctx.note("behaviours", len(behs))
+    ctx.note("runs_with_cancel_between_answer_and_removal", window_runs)
+    ctx.note("methods_cancelled_between_answer_and_removal", len(window_methods))
+    if window_runs == 0 or len(window_methods) < 38:
+        raise vlib.ToolError("the cancel-between-answer-and-removal interleaving was driven for %d runs / %d of 38 methods"
+                             % (window_runs, len(window_methods)))
     ctx.note("inprocess_runs", len(runs))
     ctx.note("methods_exercised", len(methods_seen - {L.UNKNOWN_METHOD}))
     if len(methods_seen - {L.UNKNOWN_METHOD}) < 38:
